@@ -143,6 +143,9 @@ func rawInputCases(name string, raw []byte, reg world.Regions, pairs bool) []raw
 type sizeWalkCase struct {
 	f sizeField
 	v uint32
+	// more: further size fields set together with f (nested sizes kept consistent with one another while the bytes
+	// stay as they are: what no longer belongs to the inner structure becomes trailing / extra bytes)
+	more []sizeWalkCase
 }
 
 func sizeWalk(raw []byte, reg world.Regions) []sizeWalkCase {
@@ -151,18 +154,43 @@ func sizeWalk(raw []byte, reg world.Regions) []sizeWalkCase {
 		if f.width == 2 {
 			for v := 0; v < 1<<16; v++ {
 				if uint32(v) != f.exact {
-					out = append(out, sizeWalkCase{f, uint32(v)})
+					out = append(out, sizeWalkCase{f: f, v: uint32(v)})
 				}
 			}
 			continue
 		}
 		for v := 0; v <= len(raw)+64; v++ {
 			if uint32(v) != f.exact {
-				out = append(out, sizeWalkCase{f, uint32(v)})
+				out = append(out, sizeWalkCase{f: f, v: uint32(v)})
 			}
 		}
 		for k := uint32(0); k < 64; k++ {
-			out = append(out, sizeWalkCase{f, 0xffffffff - k})
+			out = append(out, sizeWalkCase{f: f, v: 0xffffffff - k})
+		}
+	}
+	// consistent shrinking / growing of nested sizes: every certification data size k with the signed data size that
+	// goes with it (k + 134), every chain size with the two enclosing sizes that go with it, every QE auth data size
+	// with its three — the enclosing structures agree, only the innermost one is cut short or runs over
+	fs := map[string]sizeField{}
+	for _, f := range sizeFields(raw, reg) {
+		fs[f.name] = f
+	}
+	sd, cs, au, ch := fs["signed_data_size"], fs["cert_size"], fs["auth_size"], fs["chain_size"]
+	for k := 0; k <= int(cs.exact)+8; k++ {
+		if uint32(k) != cs.exact {
+			out = append(out, sizeWalkCase{f: cs, v: uint32(k), more: []sizeWalkCase{{f: sd, v: uint32(k) + sd.exact - cs.exact}}})
+		}
+	}
+	for k := 0; k <= int(ch.exact)+8; k++ {
+		if uint32(k) != ch.exact {
+			d := uint32(k) - ch.exact
+			out = append(out, sizeWalkCase{f: ch, v: uint32(k), more: []sizeWalkCase{{f: cs, v: cs.exact + d}, {f: sd, v: sd.exact + d}}})
+		}
+	}
+	for k := 0; k <= int(au.exact)+600; k++ {
+		if uint32(k) != au.exact {
+			d := uint32(k) - au.exact
+			out = append(out, sizeWalkCase{f: au, v: uint32(k), more: []sizeWalkCase{{f: cs, v: cs.exact + d}, {f: sd, v: sd.exact + d}}})
 		}
 	}
 	return out
@@ -171,7 +199,12 @@ func sizeWalk(raw []byte, reg world.Regions) []sizeWalkCase {
 func (c sizeWalkCase) build(name string, raw []byte) rawCase {
 	m := append([]byte(nil), raw...)
 	c.f.patch(m, c.v)
-	return rawCase{fmt.Sprintf("sizewalk/%s/%s=%#x", name, c.f.name, c.v), m}
+	id := fmt.Sprintf("sizewalk/%s/%s=%#x", name, c.f.name, c.v)
+	for _, x := range c.more {
+		x.f.patch(m, x.v)
+		id += fmt.Sprintf(",%s=%#x", x.f.name, x.v)
+	}
+	return rawCase{id, m}
 }
 
 func safeToProto(raw []byte) (q *pb.QuoteV4, err error) {
